@@ -83,7 +83,7 @@ PATTERNS = [
 ]
 
 
-FAR = {'near': None, 'far-1e6': (4.0e6, -3.0e6, 2.0e6), 'far-1e8': (-2.0e8, 1.0e8, 3.0e7)}
+FAR = {'near': None, 'far-1e7': (4.0e7, -3.0e6, 2.0e7)}
 
 
 def build(ch, allow_far=False):
@@ -149,9 +149,8 @@ def build(ch, allow_far=False):
     else:
         if ch.choose('trailing-trivial', [False, True]):
             rng.append((0, 0))
-    expr = lits[0]
-    for l in lits[1:]:
-        expr = ('*', expr, l)
+    # redundant parentheses (or a complemented union) around pairs of the listing do not change its order
+    expr = hier.group_pairs(lits, ch.choose('grouping', ['flat', 'pairs', 'complement']))
     lat = HCell(20, expr, mat=4, rho='-1.5', u=1, lat=2)
     lat.base = base[:2] + (base[2:] if nplanes == 8 else [])
     lat.ranges = rng
